@@ -189,9 +189,12 @@ CHECKS = {
              "tokenizer decide, the clauses strings / root / argument shape / no-largs-on-other-kinds / definition-only-on-list-"
              "items at every depth, and parse_encoded's closing loop ends with exactly the root open; the machine is tied to "
              "parser.py by recording the operations of real runs (sys.settrace on every line of parser.py) and replaying them "
-             "inside Coq: the replayed tree must be the returned tree (1200+ runs, 38000+ operations per quick run). Which "
-             "operations a handler chooses (hence the list, table, level, sarg and attrs clauses beyond the table handlers) and "
-             "the tokenizer are not modelled, so there is no totality theorem for parse().",
+             "inside Coq: the replayed tree must be the returned tree (1400+ runs, 45000+ operations per quick run). "
+             "c01_guarded_handlers_place_list_and_table_nodes (Proofs/StackPlacedProofs.v): for every GUARDED operation sequence "
+             "(a node is only pushed onto a permitted parent, no text into a LIST) the list and table clauses hold at every "
+             "depth; that the real handlers' sequences are guarded is checked on every recorded run inside Coq. Which "
+             "operations a handler chooses otherwise (the level, sarg and attrs clauses) and the tokenizer are not modelled, so "
+             "there is no totality theorem for parse().",
         note=TRUST + "tree serialiser and string abstraction (empty / contains placeholder) trusted; harness/stacktrace.py (the "
              "recorder that names each change of the stack as a model operation) is untrusted - Coq compares its replay with the "
              "returned tree.",
